@@ -12,7 +12,7 @@ MCView == <<tab, nmint, slot, tiewin, bad>>
 NeverTimedOut   == ~(\E i \in Ids : tab[i].st = "dead" /\ res = <<>> /\ ranNow = 0)
 NeverClosing    == \A i \in Ids : tab[i].st # "closing"
 NeverTieAdmit   == \A p \in Slots : ~slot[p].tie
-NeverParked     == \A i \in Ids : tab[i].pdel = 0 /\ tab[i].phung = 0
+NeverParked     == \A i \in Ids : tab[i].pdel = 0
 NeverForeign    == \A c \in Range(res) : c.cls # "foreign"
 NeverStale      == \A c \in Range(res) : c.cls # "stale"
 NeverCbClosing  == ~(\E i \in Ids : tab[i].st = "closing" /\ \E p \in Slots : slot[p].id = i /\ slot[p].tie)
